@@ -378,4 +378,25 @@ def run(chk):
                     chk.violation(r_gate, key + ":pending", "%s applies an ACTIONX that was not drawn from Actions::pending (max_run/min_wait/start not honoured)" % f["q"], f["file"], c["l"])
                 if not recorded:
                     chk.violation(r_gate, key + ":record", "%s applies pending ACTIONX objects but never records the run with State::add_run: max_run and min_wait cannot take effect" % f["q"], f["file"], c["l"])
+    # ---- C18.month: numeric month indices
+    r_mo = chk.rule("C18.month", "a MNTH comparison with a numeric right-hand side compares with the NEAREST integer month (the documented rule: MNTH = 10.8 holds in November): the number goes through a round-to-nearest function, not through a truncating conversion", floor=1)
+    ec = fx.fn1("Opm::Action::ASTNode::evalComparison")
+    month_ifs = [n for n in walk(ec["body"]) if n["k"] == "If" and isinstance(n.get("cond"), dict) and any(x.get("k") == "Ref" and x.get("n") == "time_month" for x in walk(n["cond"]))]
+    if len(month_ifs) != 1:
+        raise core.AnalysisBroken("evalComparison: the MNTH special case was not found")
+    conv = []
+    for x in walk(month_ifs[0]["then"]):
+        if x["k"] == "Cond":
+            num_arm = x["c"][1] if any(y.get("k") == "Ref" and y.get("n") == "number" and y.get("d") == "Enum" for y in walk(x["c"][0])) else None
+            if num_arm is not None:
+                calls = [(y.get("fn") or "").split("::")[-1] for y in walk(num_arm) if y["k"] == "Call"]
+                casts = [y.get("t") for y in walk(num_arm) if y["k"] == "Cast" and (y.get("t") or "") in ("int", "long", "std::size_t", "unsigned int", "long long")]
+                conv.append((calls, casts, x["l"], show(num_arm)[:80]))
+    if len(conv) != 1:
+        raise core.AnalysisBroken("evalComparison: the numeric arm of the MNTH special case was not recognised (%d candidates)" % len(conv))
+    calls, casts, ln, txt = conv[0]
+    chk.instance(r_mo, "rhs", sample=dict(expression=txt, calls=calls, integer_casts=casts))
+    if not (set(calls) & {"round", "lround", "llround", "nearbyint", "rint"}) or casts or (set(calls) & {"floor", "trunc", "ceil"}):
+        chk.violation(r_mo, "rhs", "evalComparison converts the numeric right-hand side of a MNTH comparison with `%s`: that is not rounding to the nearest integer, so MNTH = 10.8 holds in October instead of November (and every ordering comparison shifts by one month for fractions >= .5)" % txt, ec["file"], ln)
+
     chk.assumptions += ["documented ACTIONX condition syntax (AND binds tighter than OR; .GT. style aliases) as frozen in rules/C18.py"]
